@@ -544,7 +544,7 @@ def main():
         if sc is None:
             gate_failures.append("no scenario for " + k); continue
         good, res, crash = shows(prop, r["flavour"], sc, v)
-        if not good and r.get("n") is not None and r["flavour"] != "valgrind" and v["cls"] not in ("crash", "hang", "abort"):
+        if not good and r.get("n") is not None and r["flavour"] != "valgrind" and v["cls"] not in ("crash", "hang", "abort", "quiescence"):
             # not reproducible from the scenario alone: does it need what the same worker process ran before it?
             hist = [i for i in range(r["proc_start"], r["n"] + 1) if i % r["of"] == r["stripe"]]
             okh, resh = (shows_history(prop, r["flavour"], tier, base, hist, r["seed"], r["sub"], v) if len(hist) > 1 else (False, None))
